@@ -113,6 +113,20 @@ function renderScoped(c) {
   })[c.scope || 'fnDecl'];
   return { src: `${R.PRELUDE}${[...st.pre].join('\n')}\n${c.innerFirst ? inner + '\n' + outer : outer + '\n' + inner}\n`, parts: c.innerFirst ? [b, a] : [a, b] };
 }
+function renderTwice(c) {
+  const st = { n: 0, decls: [], pre: new Set() };
+  const a = build({ a: c.x }, st), b = build({ a: c.y }, st);
+  const m1 = `p: ${a.src}`, m2 = `p${c.opt2 ? '?' : ''}: ${b.src}`;
+  const pre = `${R.PRELUDE}${[...st.pre].join('\n')}\n`;
+  const any = (k) => k === 'any' || k === 'unknown';
+  // inhabitants of both declarations (none when two different concrete types meet)
+  const samples = any(c.x) ? b.samples : any(c.y) || c.x === c.y ? a.samples : [];
+  let src;
+  if (c.form === 'inter') src = `${pre}export const C = defineComponent((props: { ${m1} } & { ${m2} }) => () => null);\n`;
+  else if (c.form === 'merge') src = `${pre}interface DP { ${m1} }\ninterface DP { ${m2} }\nexport const C = defineComponent((props: DP) => () => null);\n`;
+  else src = `${pre}interface DB { ${m1} }\ninterface DP extends DB { ${m2} }\nexport const C = defineComponent((props: DP) => () => null);\n`;
+  return { src, samples };
+}
 function renderShared(c) {
   const st = { n: 0, decls: [], pre: new Set() };
   const a = build({ a: c.x }, st);
@@ -122,7 +136,7 @@ function renderShared(c) {
   const two = c.second ? '\nexport const B = defineComponent((props: { p: T1 }) => () => null);' : '';
   return { src: `${R.PRELUDE}${[...st.pre].join('\n')}\ntype T0 = ${a.src};\ntype T1 = T0;\n${one}${two}\n`, b: a };
 }
-function requests(c) { if (c.sp === 'M') return [{ src: renderShared(c).src, ts: true, want: ['eval'], opts: JSON.stringify({ resolveType: true }) }]; if (c.sp === 'S') return [{ src: renderScoped(c).src, ts: true, want: ['eval'], opts: JSON.stringify({ resolveType: true }) }]; return [{ src: render(c).src, ts: true, want: ['eval'], opts: JSON.stringify({ resolveType: true }) }]; }
+function requests(c) { if (c.sp === 'D') return [{ src: renderTwice(c).src, ts: true, want: ['eval'], opts: JSON.stringify({ resolveType: true }) }]; if (c.sp === 'M') return [{ src: renderShared(c).src, ts: true, want: ['eval'], opts: JSON.stringify({ resolveType: true }) }]; if (c.sp === 'S') return [{ src: renderScoped(c).src, ts: true, want: ['eval'], opts: JSON.stringify({ resolveType: true }) }]; return [{ src: render(c).src, ts: true, want: ['eval'], opts: JSON.stringify({ resolveType: true }) }]; }
 
 function judge(c, resps) {
   const r = resps[0];
@@ -130,6 +144,19 @@ function judge(c, resps) {
   if (r.panic || r.died || r.hang || !r.eval_js) return { skip: true };
   const res = R.run(r.eval_js);
   if (res.load) return { viol: [{ clause: 'load', diff: 'exception', msg: res.load }], obs: 'load' };
+  if (c.sp === 'D') {
+    const { samples } = renderTwice(c);
+    const call = res.calls.find((x) => x.who === 'vue');
+    const opt = call && call.args[1] && call.args[1].props && call.args[1].props.p;
+    const viol = [];
+    if (!opt) viol.push({ clause: 'twice:type', diff: 'prop:missing', msg: 'prop p was not declared', observed: call && call.args[1] });
+    else for (const v of samples) {
+      let ok;
+      try { ok = V.validateType(v, opt); } catch (e) { ok = false; }
+      if (!ok) { viol.push({ clause: 'twice:accepts-inhabitants', diff: 'rejected:' + (v === null ? 'null' : typeof v), msg: `a value that inhabits both declarations of p is rejected under runtime type ${JSON.stringify(R.typeList(opt.type))}`, observed: R.typeList(opt.type) }); break; }
+    }
+    return { viol, obs: stable(opt && R.typeList(opt.type)), clauses: ['twice:accepts-inhabitants'] };
+  }
   if (c.sp === 'M') {
     const { b } = renderShared(c);
     const calls = res.calls.filter((x) => x.who === 'vue');
@@ -201,6 +228,7 @@ function spaces(tier) {
   }
   return [
     { name: 'S:same-named-aliases-in-two-scopes', bounds: { note: 'module-level `type Value = X` and function-local `type Value = Y`, one component each, both orders', atoms: 'all × core' }, *gen() { for (const scope of SCOPES) for (const x of (scope === 'fnDecl' ? ATOM_KEYS : CORE_ATOMS)) for (const y of CORE_ATOMS) for (const innerFirst of [false, true]) if (x !== y && x !== 'bigLit' && y !== 'bigLit') yield { sp: 'S', x, y, innerFirst, scope }; } },
+    { name: 'D:prop-declared-twice', bounds: { forms: ['intersection', 'merged interface', 'extends'], atoms: 'core ∪ {unknown} × core ∪ {unknown}', note: 'one prop name declared by two members; only the user-visible clause is judged: values that inhabit both declarations must be accepted (and the emitted module must load)' }, *gen() { const pool = CORE_ATOMS.concat(['unknown']).filter((a) => a !== 'bigLit'); for (const form of ['inter', 'merge', 'ext']) for (const x of pool) for (const y of pool) for (const opt2 of [false, true]) yield { sp: 'D', form, x, y, opt2 }; } },
     { name: 'M:shared-alias-used-twice', bounds: { atoms: 'core', probes: Object.keys(PROBES), orders: ['probe first', 'probe last'], second_component: [false, true], note: 'an alias chain `type T0 = X; type T1 = T0` used by prop p, next to another use of T1 that may not be resolvable (indexed access); the second use must not change what p gets' }, *gen() { for (const x of CORE_ATOMS) if (x !== 'bigLit') for (const probe of Object.keys(PROBES)) for (const first of [true, false]) for (const second of [false, true]) yield { sp: 'M', x, probe, first, second }; } },
     { name: 'R:atoms', bounds: { atoms: ATOM_KEYS }, *gen() { for (const t of atoms) yield { t }; } },
     { name: 'R:depth-1', bounds: { unary: UNARY, binary: BINARY, atoms: 'all × all' }, *gen() { for (const t of depth1(atoms, atoms)) yield { t }; } },
@@ -217,6 +245,7 @@ function spaces(tier) {
 }
 
 function* shrink(c) {
+  if (c.sp === 'D') { if (c.opt2) yield Object.assign({}, c, { opt2: false }); if (c.form !== 'inter') yield Object.assign({}, c, { form: 'inter' }); return; }
   if (c.sp === 'M') { if (c.second) yield Object.assign({}, c, { second: false }); if (c.probe !== 'none') yield Object.assign({}, c, { probe: 'none' }); if (!c.first) yield Object.assign({}, c, { first: true }); if (c.x !== 'string') yield Object.assign({}, c, { x: 'string' }); return; }
   if (c.sp === 'S') { if (c.scope && c.scope !== 'fnDecl') yield Object.assign({}, c, { scope: 'fnDecl' }); if (c.innerFirst) yield Object.assign({}, c, { innerFirst: false }); if (c.x !== 'string' && c.y !== 'string') yield Object.assign({}, c, { x: 'string' }); if (c.y !== 'number' && c.x !== 'number') yield Object.assign({}, c, { y: 'number' }); return; }
   const t = c.t;
@@ -236,6 +265,6 @@ module.exports = {
   rule: 'BFS over type terms: every atom of the statement\'s table (keywords, literal types incl. bigint and template literals, function/constructor types, arrays/tuples, object-like types, built-in classes, any/unknown, null, utility wrappers), every depth-1 term (alias, alias chain, parentheses, NonNullable, | null, element access of arrays/tuples/objects/interfaces, union in both orders, intersection, Exclude/Extract) over all atoms, and depth-2 terms over a core; each term is the declared type of a prop, transformed by the real visitor with resolveType on and executed; the emitted runtime type, normalised to constructor names, must equal the reference constructor set (no check for any/unknown, Boolean/String in declaration order), and every sample inhabitant of the term must pass Vue\'s assertType algorithm. Distinct = distinct emitted type lists.',
   assumptions: ['Vue assertType / validateProp transcribed in the mock runtime', 'sample inhabitants per atom chosen by hand', 'SWC TypeScript parser; TS eraser of the driver'],
   spaces, requests, judge, shrink,
-  caseKey: (c) => (c.sp === 'M' ? `M:T1=T0=${c.x}; ${c.first ? 'q: ' + PROBES[c.probe] + '; p: T1' : 'p: T1; q: ' + PROBES[c.probe]}${c.second ? ' + second component' : ''}` : c.sp === 'S' ? `S:outer Value=${c.x}, inner Value=${c.y}${c.innerFirst ? ' (inner first)' : ''}${c.scope && c.scope !== 'fnDecl' ? ' in ' + c.scope : ''}` : termKey(c.t)),
-  depth: (c) => { if (c.sp === 'S' || c.sp === 'M') return 2; const d = (t) => (t.a ? 0 : 1 + Math.max(...t.args.map(d))); return d(c.t); },
+  caseKey: (c) => (c.sp === 'D' ? `D:${c.form} p: ${c.x} ; p${c.opt2 ? '?' : ''}: ${c.y}` : c.sp === 'M' ? `M:T1=T0=${c.x}; ${c.first ? 'q: ' + PROBES[c.probe] + '; p: T1' : 'p: T1; q: ' + PROBES[c.probe]}${c.second ? ' + second component' : ''}` : c.sp === 'S' ? `S:outer Value=${c.x}, inner Value=${c.y}${c.innerFirst ? ' (inner first)' : ''}${c.scope && c.scope !== 'fnDecl' ? ' in ' + c.scope : ''}` : termKey(c.t)),
+  depth: (c) => { if (c.sp === 'S' || c.sp === 'M' || c.sp === 'D') return 2; const d = (t) => (t.a ? 0 : 1 + Math.max(...t.args.map(d))); return d(c.t); },
 };
